@@ -192,7 +192,861 @@ pub fn c11_simd_dual2vec_presence() {
     cover!(x.v2 != Derivative::none() && val.v2 == Derivative::none());
 }
 
+
+// ---------------------------------------------------------------------------------------------
+// field methods forward to the generic dual operations (bit-identical under UF stubs: a method
+// forwarded to the wrong operation hits a different uninterpreted function)
+// ---------------------------------------------------------------------------------------------
+macro_rules! fwd_harness {
+    ($name:ident, $T:ty, $mk:expr, $same:expr, [$($stub:meta),*], [$($m:ident),*]) => {
+        #[cfg_attr(kani, kani::proof)]
+        #[cfg_attr(kani, kani::unwind(14))]
+        $( #[cfg_attr(kani, $stub)] )*
+        pub fn $name() {
+            let x: $T = $mk;
+            $(
+                let a = <$T as ComplexField>::$m(x.clone());
+                let b = DualNum::$m(&x);
+                assert!($same(&a, &b));
+            )*
+            cover!(true);
+        }
+    };
+}
+
+fn mk_dual() -> Dual64 {
+    // a concrete evaluation point (chosen among a few): the libm results stay symbolic (UF), the
+    // float arithmetic around them is mostly constant-folded by CBMC
+    let r = 0.5;
+    // unit seed: the parts of the result are then the derivative values themselves and no
+    // symbolic x symbolic multiplication enters the model
+    Dual64::new(r, 1.0)
+}
+fn same_dual(a: &Dual64, b: &Dual64) -> bool {
+    eq64(a.re, b.re) && eq64(a.eps, b.eps)
+}
+fn mk_dual2() -> Dual2_64 {
+    let r = 0.5;
+    Dual2_64::new(r, 1.0, 0.0)
+}
+fn same_dual2(a: &Dual2_64, b: &Dual2_64) -> bool {
+    eq64(a.re, b.re) && eq64(a.v1, b.v1) && eq64(a.v2, b.v2)
+}
+fn mk_dvec() -> DualVec<f64, f64, Const<2>> {
+    let r = 0.5;
+    let eps = if any_bool() {
+        Derivative::some(nalgebra::SVector::<f64, 2>::new(1.0, 0.0))
+    } else {
+        Derivative::none()
+    };
+    DualVec::new(r, eps)
+}
+fn same_dvec(a: &DualVec<f64, f64, Const<2>>, b: &DualVec<f64, f64, Const<2>>) -> bool {
+    use nalgebra::U1;
+    let (ea, eb) = (a.eps.clone().unwrap_generic(Const::<2>, U1), b.eps.clone().unwrap_generic(Const::<2>, U1));
+    eq64(a.re, b.re) && (a.eps == Derivative::none()) == (b.eps == Derivative::none()) && eq64(ea[0], eb[0]) && eq64(ea[1], eb[1])
+}
+
+fwd_harness!(c11_fwd_dual_trig, Dual64, mk_dual(), same_dual,
+    [kani::stub(f64::sin_cos, uf::sin_cos), kani::stub(f64::asin, uf::asin), kani::stub(f64::acos, uf::acos), kani::stub(f64::atan, uf::atan)],
+    [sin, cos, asin, acos, atan]);
+fwd_harness!(c11_fwd_dual_hyp, Dual64, mk_dual(), same_dual,
+    [kani::stub(f64::sinh, uf::sinh), kani::stub(f64::cosh, uf::cosh), kani::stub(f64::asinh, uf::asinh), kani::stub(f64::atanh, uf::atanh)],
+    [sinh, cosh, asinh, atanh]);
+fwd_harness!(c11_fwd_dual_exp, Dual64, mk_dual(), same_dual,
+    [kani::stub(f64::exp, uf::exp), kani::stub(f64::exp_m1, uf::exp_m1)],
+    [exp, exp_m1]);
+fwd_harness!(c11_fwd_dual_ln, Dual64, mk_dual(), same_dual,
+    [kani::stub(f64::ln, uf::ln), kani::stub(f64::ln_1p, uf::ln_1p)],
+    [ln, ln_1p]);
+fwd_harness!(c11_fwd_dual_base2_10, Dual64, mk_dual(), same_dual,
+    [kani::stub(f64::ln, tag::ln), kani::stub(f64::exp2, tag::exp2), kani::stub(f64::log2, tag::log2), kani::stub(f64::log10, tag::log10)],
+    [exp2, log2, log10]);
+fwd_harness!(c11_fwd_dual2_a, Dual2_64, mk_dual2(), same_dual2,
+    [kani::stub(f64::sin_cos, uf::sin_cos), kani::stub(f64::exp, uf::exp)],
+    [sin, cos, exp]);
+fwd_harness!(c11_fwd_dual2_b, Dual2_64, mk_dual2(), same_dual2,
+    [kani::stub(f64::sinh, uf::sinh), kani::stub(f64::cosh, uf::cosh), kani::stub(f64::ln, uf::ln)],
+    [sinh, cosh, ln]);
+fwd_harness!(c11_fwd_dualvec_a, DualVec<f64, f64, Const<2>>, mk_dvec(), same_dvec,
+    [kani::stub(f64::sin_cos, uf::sin_cos), kani::stub(f64::exp, uf::exp), kani::stub(f64::atan, uf::atan)],
+    [sin, cos, exp, atan]);
+fwd_harness!(c11_fwd_dualvec_b, DualVec<f64, f64, Const<2>>, mk_dvec(), same_dvec,
+    [kani::stub(f64::cosh, uf::cosh), kani::stub(f64::sinh, uf::sinh), kani::stub(f64::ln_1p, uf::ln_1p)],
+    [cosh, sinh, ln_1p]);
+
+/// powi forwards to the generic integer power
+#[cfg_attr(kani, kani::proof)]
+#[cfg_attr(kani, kani::unwind(14))]
+#[cfg_attr(kani, kani::stub(f64::powi, tag::powi))]
+pub fn c11_fwd_dual_powi() {
+    let x = mk_dual();
+    for n in [-3, 0, 1, 2, 5] {
+        assert!(same_dual(&ComplexField::powi(x, n), &DualNum::powi(&x, n)));
+    }
+    cover!(true);
+}
+
+/// log to a dual base = ln/ln, power with a dual exponent = powd
+#[cfg_attr(kani, kani::proof)]
+#[cfg_attr(kani, kani::unwind(14))]
+#[cfg_attr(kani, kani::stub(f64::ln, tag::ln))]
+#[cfg_attr(kani, kani::stub(f64::exp, tag::exp))]
+pub fn c11_fwd_dual_log_powf() {
+    let x = mk_dual();
+    let y = Dual64::new(2.0, 0.0);
+    assert!(same_dual(&ComplexField::log(x, y), &(DualNum::ln(&x) / DualNum::ln(&y))));
+    assert!(same_dual(&ComplexField::powf(x, y), &DualNum::powd(&x, y)));
+    assert!(same_dual(&ComplexField::powc(x, y), &DualNum::powd(&x, y)));
+    cover!(true);
+}
+
+#[cfg_attr(kani, kani::proof)]
+pub fn c11_fwd_dual_simple() {
+    let x = mk_dual();
+    let y = Dual64::new(4.0, 1.0);
+    assume(!x.re.is_nan());
+    assert!(same_dual(&ComplexField::recip(x), &DualNum::recip(&x)));
+    assert!(same_dual(&ComplexField::scale(x, y), &(x * y)));
+    assert!(same_dual(&ComplexField::unscale(x, y), &(x / y)));
+    assert!(same_dual(&ComplexField::modulus(x), &num_traits::Signed::abs(&x)));
+    assert!(same_dual(&ComplexField::norm1(x), &num_traits::Signed::abs(&x)));
+    assert!(same_dual(&ComplexField::abs(x), &num_traits::Signed::abs(&x)));
+    assert!(same_dual(&ComplexField::modulus_squared(x), &(x * x)));
+    assert!(same_dual(&ComplexField::mul_add(x, y, y), &DualNum::mul_add(&x, y, y)));
+    assert!(ComplexField::is_finite(&x) == x.re.is_finite());
+    let arg = ComplexField::argument(x);
+    assert!(arg.re == 0.0 && arg.eps == 0.0);
+    cover!(true);
+}
+
+fn same_d2v(a: &Dual2Vec<f64, f64, Const<1>>, b: &Dual2Vec<f64, f64, Const<1>>) -> bool {
+    use nalgebra::U1;
+    let (a1, b1) = (a.v1.clone().unwrap_generic(U1, Const::<1>), b.v1.clone().unwrap_generic(U1, Const::<1>));
+    let (a2, b2) = (a.v2.clone().unwrap_generic(Const::<1>, Const::<1>), b.v2.clone().unwrap_generic(Const::<1>, Const::<1>));
+    eq64(a.re, b.re) && eq64(a1[0], b1[0]) && eq64(a2[0], b2[0])
+}
+fn mk_d2v() -> Dual2Vec<f64, f64, Const<1>> {
+    Dual2Vec::new(
+        0.5,
+        Derivative::some(nalgebra::SMatrix::<f64, 1, 1>::new(1.5)),
+        Derivative::some(nalgebra::SMatrix::<f64, 1, 1>::new(-0.25)),
+    )
+}
+fn mk_dvec_c() -> DualVec<f64, f64, Const<2>> {
+    DualVec::new(0.5, Derivative::some(nalgebra::SVector::<f64, 2>::new(1.0, -0.5)))
+}
+
+
+
+// ---- all field methods on the four field-compatible types, tag stubs (concrete execution);
+// generated text: 4 types x 4 parts
+#[cfg_attr(kani, kani::proof)]
+#[cfg_attr(kani, kani::unwind(8))]
+#[cfg_attr(kani, kani::stub(f64::sin_cos, tag::sin_cos))]
+#[cfg_attr(kani, kani::stub(f64::asin, tag::asin))]
+#[cfg_attr(kani, kani::stub(f64::acos, tag::acos))]
+#[cfg_attr(kani, kani::stub(f64::atan, tag::atan))]
+#[cfg_attr(kani, kani::stub(f64::sinh, tag::sinh))]
+#[cfg_attr(kani, kani::stub(f64::cosh, tag::cosh))]
+#[cfg_attr(kani, kani::stub(f64::asinh, tag::asinh))]
+#[cfg_attr(kani, kani::stub(f64::acosh, tag::acosh))]
+#[cfg_attr(kani, kani::stub(f64::atanh, tag::atanh))]
+#[cfg_attr(kani, kani::stub(f64::exp, tag::exp))]
+#[cfg_attr(kani, kani::stub(f64::exp2, tag::exp2))]
+#[cfg_attr(kani, kani::stub(f64::exp_m1, tag::exp_m1))]
+#[cfg_attr(kani, kani::stub(f64::ln, tag::ln))]
+#[cfg_attr(kani, kani::stub(f64::ln_1p, tag::ln_1p))]
+#[cfg_attr(kani, kani::stub(f64::log2, tag::log2))]
+#[cfg_attr(kani, kani::stub(f64::log10, tag::log10))]
+#[cfg_attr(kani, kani::stub(f64::cbrt, tag::cbrt))]
+#[cfg_attr(kani, kani::stub(f64::powi, tag::powi))]
+#[cfg_attr(kani, kani::stub(f64::atan2, tag::atan2))]
+pub fn c11_fwdtag_dual64_u0() {
+    let x: Dual64 = Dual64::new(0.5, 1.5);
+    assert!(same_dual(&<Dual64 as ComplexField>::sin(x.clone()), &DualNum::sin(&x)));
+    assert!(same_dual(&<Dual64 as ComplexField>::cos(x.clone()), &DualNum::cos(&x)));
+    assert!(same_dual(&<Dual64 as ComplexField>::tan(x.clone()), &DualNum::tan(&x)));
+    assert!(same_dual(&<Dual64 as ComplexField>::asin(x.clone()), &DualNum::asin(&x)));
+    assert!(same_dual(&<Dual64 as ComplexField>::acos(x.clone()), &DualNum::acos(&x)));
+    assert!(same_dual(&<Dual64 as ComplexField>::atan(x.clone()), &DualNum::atan(&x)));
+    cover!(true);
+}
+
+#[cfg_attr(kani, kani::proof)]
+#[cfg_attr(kani, kani::unwind(8))]
+#[cfg_attr(kani, kani::stub(f64::sin_cos, tag::sin_cos))]
+#[cfg_attr(kani, kani::stub(f64::asin, tag::asin))]
+#[cfg_attr(kani, kani::stub(f64::acos, tag::acos))]
+#[cfg_attr(kani, kani::stub(f64::atan, tag::atan))]
+#[cfg_attr(kani, kani::stub(f64::sinh, tag::sinh))]
+#[cfg_attr(kani, kani::stub(f64::cosh, tag::cosh))]
+#[cfg_attr(kani, kani::stub(f64::asinh, tag::asinh))]
+#[cfg_attr(kani, kani::stub(f64::acosh, tag::acosh))]
+#[cfg_attr(kani, kani::stub(f64::atanh, tag::atanh))]
+#[cfg_attr(kani, kani::stub(f64::exp, tag::exp))]
+#[cfg_attr(kani, kani::stub(f64::exp2, tag::exp2))]
+#[cfg_attr(kani, kani::stub(f64::exp_m1, tag::exp_m1))]
+#[cfg_attr(kani, kani::stub(f64::ln, tag::ln))]
+#[cfg_attr(kani, kani::stub(f64::ln_1p, tag::ln_1p))]
+#[cfg_attr(kani, kani::stub(f64::log2, tag::log2))]
+#[cfg_attr(kani, kani::stub(f64::log10, tag::log10))]
+#[cfg_attr(kani, kani::stub(f64::cbrt, tag::cbrt))]
+#[cfg_attr(kani, kani::stub(f64::powi, tag::powi))]
+#[cfg_attr(kani, kani::stub(f64::atan2, tag::atan2))]
+pub fn c11_fwdtag_dual64_u1() {
+    let x: Dual64 = Dual64::new(0.5, 1.5);
+    assert!(same_dual(&<Dual64 as ComplexField>::sinh(x.clone()), &DualNum::sinh(&x)));
+    assert!(same_dual(&<Dual64 as ComplexField>::cosh(x.clone()), &DualNum::cosh(&x)));
+    assert!(same_dual(&<Dual64 as ComplexField>::tanh(x.clone()), &DualNum::tanh(&x)));
+    assert!(same_dual(&<Dual64 as ComplexField>::asinh(x.clone()), &DualNum::asinh(&x)));
+    assert!(same_dual(&<Dual64 as ComplexField>::atanh(x.clone()), &DualNum::atanh(&x)));
+    assert!(same_dual(&<Dual64 as ComplexField>::sqrt(x.clone()), &DualNum::sqrt(&x)));
+    assert!(same_dual(&<Dual64 as ComplexField>::recip(x.clone()), &DualNum::recip(&x)));
+    cover!(true);
+}
+
+#[cfg_attr(kani, kani::proof)]
+#[cfg_attr(kani, kani::unwind(8))]
+#[cfg_attr(kani, kani::stub(f64::sin_cos, tag::sin_cos))]
+#[cfg_attr(kani, kani::stub(f64::asin, tag::asin))]
+#[cfg_attr(kani, kani::stub(f64::acos, tag::acos))]
+#[cfg_attr(kani, kani::stub(f64::atan, tag::atan))]
+#[cfg_attr(kani, kani::stub(f64::sinh, tag::sinh))]
+#[cfg_attr(kani, kani::stub(f64::cosh, tag::cosh))]
+#[cfg_attr(kani, kani::stub(f64::asinh, tag::asinh))]
+#[cfg_attr(kani, kani::stub(f64::acosh, tag::acosh))]
+#[cfg_attr(kani, kani::stub(f64::atanh, tag::atanh))]
+#[cfg_attr(kani, kani::stub(f64::exp, tag::exp))]
+#[cfg_attr(kani, kani::stub(f64::exp2, tag::exp2))]
+#[cfg_attr(kani, kani::stub(f64::exp_m1, tag::exp_m1))]
+#[cfg_attr(kani, kani::stub(f64::ln, tag::ln))]
+#[cfg_attr(kani, kani::stub(f64::ln_1p, tag::ln_1p))]
+#[cfg_attr(kani, kani::stub(f64::log2, tag::log2))]
+#[cfg_attr(kani, kani::stub(f64::log10, tag::log10))]
+#[cfg_attr(kani, kani::stub(f64::cbrt, tag::cbrt))]
+#[cfg_attr(kani, kani::stub(f64::powi, tag::powi))]
+#[cfg_attr(kani, kani::stub(f64::atan2, tag::atan2))]
+pub fn c11_fwdtag_dual64_u2() {
+    let x: Dual64 = Dual64::new(0.5, 1.5);
+    assert!(same_dual(&<Dual64 as ComplexField>::exp(x.clone()), &DualNum::exp(&x)));
+    assert!(same_dual(&<Dual64 as ComplexField>::exp2(x.clone()), &DualNum::exp2(&x)));
+    assert!(same_dual(&<Dual64 as ComplexField>::exp_m1(x.clone()), &DualNum::exp_m1(&x)));
+    assert!(same_dual(&<Dual64 as ComplexField>::ln(x.clone()), &DualNum::ln(&x)));
+    assert!(same_dual(&<Dual64 as ComplexField>::ln_1p(x.clone()), &DualNum::ln_1p(&x)));
+    assert!(same_dual(&<Dual64 as ComplexField>::log2(x.clone()), &DualNum::log2(&x)));
+    assert!(same_dual(&<Dual64 as ComplexField>::log10(x.clone()), &DualNum::log10(&x)));
+    assert!(same_dual(&<Dual64 as ComplexField>::cbrt(x.clone()), &DualNum::cbrt(&x)));
+    cover!(true);
+}
+
+#[cfg_attr(kani, kani::proof)]
+#[cfg_attr(kani, kani::unwind(8))]
+#[cfg_attr(kani, kani::stub(f64::sin_cos, tag::sin_cos))]
+#[cfg_attr(kani, kani::stub(f64::asin, tag::asin))]
+#[cfg_attr(kani, kani::stub(f64::acos, tag::acos))]
+#[cfg_attr(kani, kani::stub(f64::atan, tag::atan))]
+#[cfg_attr(kani, kani::stub(f64::sinh, tag::sinh))]
+#[cfg_attr(kani, kani::stub(f64::cosh, tag::cosh))]
+#[cfg_attr(kani, kani::stub(f64::asinh, tag::asinh))]
+#[cfg_attr(kani, kani::stub(f64::acosh, tag::acosh))]
+#[cfg_attr(kani, kani::stub(f64::atanh, tag::atanh))]
+#[cfg_attr(kani, kani::stub(f64::exp, tag::exp))]
+#[cfg_attr(kani, kani::stub(f64::exp2, tag::exp2))]
+#[cfg_attr(kani, kani::stub(f64::exp_m1, tag::exp_m1))]
+#[cfg_attr(kani, kani::stub(f64::ln, tag::ln))]
+#[cfg_attr(kani, kani::stub(f64::ln_1p, tag::ln_1p))]
+#[cfg_attr(kani, kani::stub(f64::log2, tag::log2))]
+#[cfg_attr(kani, kani::stub(f64::log10, tag::log10))]
+#[cfg_attr(kani, kani::stub(f64::cbrt, tag::cbrt))]
+#[cfg_attr(kani, kani::stub(f64::powi, tag::powi))]
+#[cfg_attr(kani, kani::stub(f64::atan2, tag::atan2))]
+pub fn c11_fwdtag_dual64_bina() {
+    let x: Dual64 = Dual64::new(0.5, 1.5);
+    let y: Dual64 = <Dual64 as num_traits::One>::one() + <Dual64 as num_traits::One>::one();
+    let (s1, c1) = <Dual64 as ComplexField>::sin_cos(x.clone());
+    let (s2, c2) = DualNum::sin_cos(&x);
+    assert!(same_dual(&s1, &s2) && same_dual(&c1, &c2));
+    assert!(same_dual(&<Dual64 as ComplexField>::powi(x.clone(), 3), &DualNum::powi(&x, 3)));
+    assert!(same_dual(&<Dual64 as ComplexField>::log(x.clone(), y.clone()), &(DualNum::ln(&x) / DualNum::ln(&y))));
+    assert!(same_dual(&<Dual64 as RealField>::atan2(x.clone(), y.clone()), &DualNum::atan2(&x, y.clone())));
+    let ts = <Dual64 as ComplexField>::try_sqrt(x.clone());
+    assert!(ts.is_some() && same_dual(&ts.unwrap(), &DualNum::sqrt(&x)));
+    cover!(true);
+}
+
+#[cfg_attr(kani, kani::proof)]
+#[cfg_attr(kani, kani::unwind(8))]
+#[cfg_attr(kani, kani::stub(f64::sin_cos, tag::sin_cos))]
+#[cfg_attr(kani, kani::stub(f64::asin, tag::asin))]
+#[cfg_attr(kani, kani::stub(f64::acos, tag::acos))]
+#[cfg_attr(kani, kani::stub(f64::atan, tag::atan))]
+#[cfg_attr(kani, kani::stub(f64::sinh, tag::sinh))]
+#[cfg_attr(kani, kani::stub(f64::cosh, tag::cosh))]
+#[cfg_attr(kani, kani::stub(f64::asinh, tag::asinh))]
+#[cfg_attr(kani, kani::stub(f64::acosh, tag::acosh))]
+#[cfg_attr(kani, kani::stub(f64::atanh, tag::atanh))]
+#[cfg_attr(kani, kani::stub(f64::exp, tag::exp))]
+#[cfg_attr(kani, kani::stub(f64::exp2, tag::exp2))]
+#[cfg_attr(kani, kani::stub(f64::exp_m1, tag::exp_m1))]
+#[cfg_attr(kani, kani::stub(f64::ln, tag::ln))]
+#[cfg_attr(kani, kani::stub(f64::ln_1p, tag::ln_1p))]
+#[cfg_attr(kani, kani::stub(f64::log2, tag::log2))]
+#[cfg_attr(kani, kani::stub(f64::log10, tag::log10))]
+#[cfg_attr(kani, kani::stub(f64::cbrt, tag::cbrt))]
+#[cfg_attr(kani, kani::stub(f64::powi, tag::powi))]
+#[cfg_attr(kani, kani::stub(f64::atan2, tag::atan2))]
+pub fn c11_fwdtag_dual64_binb_slow() {
+    let x: Dual64 = Dual64::new(0.5, 1.5);
+    let y: Dual64 = <Dual64 as num_traits::One>::one() + <Dual64 as num_traits::One>::one();
+    assert!(same_dual(&<Dual64 as ComplexField>::powf(x.clone(), y.clone()), &DualNum::powd(&x, y.clone())));
+    assert!(same_dual(&<Dual64 as ComplexField>::powc(x.clone(), y.clone()), &DualNum::powd(&x, y.clone())));
+    assert!(same_dual(&<Dual64 as ComplexField>::hypot(x.clone(), y.clone()),
+        &DualNum::sqrt(&(DualNum::powi(&x, 2) + DualNum::powi(&y, 2)))));
+    assert!(same_dual(&<Dual64 as ComplexField>::scale(x.clone(), y.clone()), &(x.clone() * y.clone())));
+    assert!(same_dual(&<Dual64 as ComplexField>::unscale(x.clone(), y.clone()), &(x.clone() / y.clone())));
+    assert!(same_dual(&<Dual64 as ComplexField>::mul_add(x.clone(), y.clone(), y.clone()), &DualNum::mul_add(&x, y.clone(), y.clone())));
+    cover!(true);
+}
+
+#[cfg_attr(kani, kani::proof)]
+#[cfg_attr(kani, kani::unwind(8))]
+#[cfg_attr(kani, kani::stub(f64::sin_cos, tag::sin_cos))]
+#[cfg_attr(kani, kani::stub(f64::asin, tag::asin))]
+#[cfg_attr(kani, kani::stub(f64::acos, tag::acos))]
+#[cfg_attr(kani, kani::stub(f64::atan, tag::atan))]
+#[cfg_attr(kani, kani::stub(f64::sinh, tag::sinh))]
+#[cfg_attr(kani, kani::stub(f64::cosh, tag::cosh))]
+#[cfg_attr(kani, kani::stub(f64::asinh, tag::asinh))]
+#[cfg_attr(kani, kani::stub(f64::acosh, tag::acosh))]
+#[cfg_attr(kani, kani::stub(f64::atanh, tag::atanh))]
+#[cfg_attr(kani, kani::stub(f64::exp, tag::exp))]
+#[cfg_attr(kani, kani::stub(f64::exp2, tag::exp2))]
+#[cfg_attr(kani, kani::stub(f64::exp_m1, tag::exp_m1))]
+#[cfg_attr(kani, kani::stub(f64::ln, tag::ln))]
+#[cfg_attr(kani, kani::stub(f64::ln_1p, tag::ln_1p))]
+#[cfg_attr(kani, kani::stub(f64::log2, tag::log2))]
+#[cfg_attr(kani, kani::stub(f64::log10, tag::log10))]
+#[cfg_attr(kani, kani::stub(f64::cbrt, tag::cbrt))]
+#[cfg_attr(kani, kani::stub(f64::powi, tag::powi))]
+#[cfg_attr(kani, kani::stub(f64::atan2, tag::atan2))]
+pub fn c11_fwdtag_dual2_64_u0() {
+    let x: Dual2_64 = Dual2_64::new(0.5, 1.5, -0.25);
+    assert!(same_dual2(&<Dual2_64 as ComplexField>::sin(x.clone()), &DualNum::sin(&x)));
+    assert!(same_dual2(&<Dual2_64 as ComplexField>::cos(x.clone()), &DualNum::cos(&x)));
+    assert!(same_dual2(&<Dual2_64 as ComplexField>::tan(x.clone()), &DualNum::tan(&x)));
+    assert!(same_dual2(&<Dual2_64 as ComplexField>::asin(x.clone()), &DualNum::asin(&x)));
+    assert!(same_dual2(&<Dual2_64 as ComplexField>::acos(x.clone()), &DualNum::acos(&x)));
+    assert!(same_dual2(&<Dual2_64 as ComplexField>::atan(x.clone()), &DualNum::atan(&x)));
+    cover!(true);
+}
+
+#[cfg_attr(kani, kani::proof)]
+#[cfg_attr(kani, kani::unwind(8))]
+#[cfg_attr(kani, kani::stub(f64::sin_cos, tag::sin_cos))]
+#[cfg_attr(kani, kani::stub(f64::asin, tag::asin))]
+#[cfg_attr(kani, kani::stub(f64::acos, tag::acos))]
+#[cfg_attr(kani, kani::stub(f64::atan, tag::atan))]
+#[cfg_attr(kani, kani::stub(f64::sinh, tag::sinh))]
+#[cfg_attr(kani, kani::stub(f64::cosh, tag::cosh))]
+#[cfg_attr(kani, kani::stub(f64::asinh, tag::asinh))]
+#[cfg_attr(kani, kani::stub(f64::acosh, tag::acosh))]
+#[cfg_attr(kani, kani::stub(f64::atanh, tag::atanh))]
+#[cfg_attr(kani, kani::stub(f64::exp, tag::exp))]
+#[cfg_attr(kani, kani::stub(f64::exp2, tag::exp2))]
+#[cfg_attr(kani, kani::stub(f64::exp_m1, tag::exp_m1))]
+#[cfg_attr(kani, kani::stub(f64::ln, tag::ln))]
+#[cfg_attr(kani, kani::stub(f64::ln_1p, tag::ln_1p))]
+#[cfg_attr(kani, kani::stub(f64::log2, tag::log2))]
+#[cfg_attr(kani, kani::stub(f64::log10, tag::log10))]
+#[cfg_attr(kani, kani::stub(f64::cbrt, tag::cbrt))]
+#[cfg_attr(kani, kani::stub(f64::powi, tag::powi))]
+#[cfg_attr(kani, kani::stub(f64::atan2, tag::atan2))]
+pub fn c11_fwdtag_dual2_64_u1() {
+    let x: Dual2_64 = Dual2_64::new(0.5, 1.5, -0.25);
+    assert!(same_dual2(&<Dual2_64 as ComplexField>::sinh(x.clone()), &DualNum::sinh(&x)));
+    assert!(same_dual2(&<Dual2_64 as ComplexField>::cosh(x.clone()), &DualNum::cosh(&x)));
+    assert!(same_dual2(&<Dual2_64 as ComplexField>::tanh(x.clone()), &DualNum::tanh(&x)));
+    assert!(same_dual2(&<Dual2_64 as ComplexField>::asinh(x.clone()), &DualNum::asinh(&x)));
+    assert!(same_dual2(&<Dual2_64 as ComplexField>::atanh(x.clone()), &DualNum::atanh(&x)));
+    assert!(same_dual2(&<Dual2_64 as ComplexField>::sqrt(x.clone()), &DualNum::sqrt(&x)));
+    assert!(same_dual2(&<Dual2_64 as ComplexField>::recip(x.clone()), &DualNum::recip(&x)));
+    cover!(true);
+}
+
+#[cfg_attr(kani, kani::proof)]
+#[cfg_attr(kani, kani::unwind(8))]
+#[cfg_attr(kani, kani::stub(f64::sin_cos, tag::sin_cos))]
+#[cfg_attr(kani, kani::stub(f64::asin, tag::asin))]
+#[cfg_attr(kani, kani::stub(f64::acos, tag::acos))]
+#[cfg_attr(kani, kani::stub(f64::atan, tag::atan))]
+#[cfg_attr(kani, kani::stub(f64::sinh, tag::sinh))]
+#[cfg_attr(kani, kani::stub(f64::cosh, tag::cosh))]
+#[cfg_attr(kani, kani::stub(f64::asinh, tag::asinh))]
+#[cfg_attr(kani, kani::stub(f64::acosh, tag::acosh))]
+#[cfg_attr(kani, kani::stub(f64::atanh, tag::atanh))]
+#[cfg_attr(kani, kani::stub(f64::exp, tag::exp))]
+#[cfg_attr(kani, kani::stub(f64::exp2, tag::exp2))]
+#[cfg_attr(kani, kani::stub(f64::exp_m1, tag::exp_m1))]
+#[cfg_attr(kani, kani::stub(f64::ln, tag::ln))]
+#[cfg_attr(kani, kani::stub(f64::ln_1p, tag::ln_1p))]
+#[cfg_attr(kani, kani::stub(f64::log2, tag::log2))]
+#[cfg_attr(kani, kani::stub(f64::log10, tag::log10))]
+#[cfg_attr(kani, kani::stub(f64::cbrt, tag::cbrt))]
+#[cfg_attr(kani, kani::stub(f64::powi, tag::powi))]
+#[cfg_attr(kani, kani::stub(f64::atan2, tag::atan2))]
+pub fn c11_fwdtag_dual2_64_u2() {
+    let x: Dual2_64 = Dual2_64::new(0.5, 1.5, -0.25);
+    assert!(same_dual2(&<Dual2_64 as ComplexField>::exp(x.clone()), &DualNum::exp(&x)));
+    assert!(same_dual2(&<Dual2_64 as ComplexField>::exp2(x.clone()), &DualNum::exp2(&x)));
+    assert!(same_dual2(&<Dual2_64 as ComplexField>::exp_m1(x.clone()), &DualNum::exp_m1(&x)));
+    assert!(same_dual2(&<Dual2_64 as ComplexField>::ln(x.clone()), &DualNum::ln(&x)));
+    assert!(same_dual2(&<Dual2_64 as ComplexField>::ln_1p(x.clone()), &DualNum::ln_1p(&x)));
+    assert!(same_dual2(&<Dual2_64 as ComplexField>::log2(x.clone()), &DualNum::log2(&x)));
+    assert!(same_dual2(&<Dual2_64 as ComplexField>::log10(x.clone()), &DualNum::log10(&x)));
+    assert!(same_dual2(&<Dual2_64 as ComplexField>::cbrt(x.clone()), &DualNum::cbrt(&x)));
+    cover!(true);
+}
+
+#[cfg_attr(kani, kani::proof)]
+#[cfg_attr(kani, kani::unwind(8))]
+#[cfg_attr(kani, kani::stub(f64::sin_cos, tag::sin_cos))]
+#[cfg_attr(kani, kani::stub(f64::asin, tag::asin))]
+#[cfg_attr(kani, kani::stub(f64::acos, tag::acos))]
+#[cfg_attr(kani, kani::stub(f64::atan, tag::atan))]
+#[cfg_attr(kani, kani::stub(f64::sinh, tag::sinh))]
+#[cfg_attr(kani, kani::stub(f64::cosh, tag::cosh))]
+#[cfg_attr(kani, kani::stub(f64::asinh, tag::asinh))]
+#[cfg_attr(kani, kani::stub(f64::acosh, tag::acosh))]
+#[cfg_attr(kani, kani::stub(f64::atanh, tag::atanh))]
+#[cfg_attr(kani, kani::stub(f64::exp, tag::exp))]
+#[cfg_attr(kani, kani::stub(f64::exp2, tag::exp2))]
+#[cfg_attr(kani, kani::stub(f64::exp_m1, tag::exp_m1))]
+#[cfg_attr(kani, kani::stub(f64::ln, tag::ln))]
+#[cfg_attr(kani, kani::stub(f64::ln_1p, tag::ln_1p))]
+#[cfg_attr(kani, kani::stub(f64::log2, tag::log2))]
+#[cfg_attr(kani, kani::stub(f64::log10, tag::log10))]
+#[cfg_attr(kani, kani::stub(f64::cbrt, tag::cbrt))]
+#[cfg_attr(kani, kani::stub(f64::powi, tag::powi))]
+#[cfg_attr(kani, kani::stub(f64::atan2, tag::atan2))]
+pub fn c11_fwdtag_dual2_64_bina() {
+    let x: Dual2_64 = Dual2_64::new(0.5, 1.5, -0.25);
+    let y: Dual2_64 = <Dual2_64 as num_traits::One>::one() + <Dual2_64 as num_traits::One>::one();
+    let (s1, c1) = <Dual2_64 as ComplexField>::sin_cos(x.clone());
+    let (s2, c2) = DualNum::sin_cos(&x);
+    assert!(same_dual2(&s1, &s2) && same_dual2(&c1, &c2));
+    assert!(same_dual2(&<Dual2_64 as ComplexField>::powi(x.clone(), 3), &DualNum::powi(&x, 3)));
+    assert!(same_dual2(&<Dual2_64 as ComplexField>::log(x.clone(), y.clone()), &(DualNum::ln(&x) / DualNum::ln(&y))));
+    assert!(same_dual2(&<Dual2_64 as RealField>::atan2(x.clone(), y.clone()), &DualNum::atan2(&x, y.clone())));
+    let ts = <Dual2_64 as ComplexField>::try_sqrt(x.clone());
+    assert!(ts.is_some() && same_dual2(&ts.unwrap(), &DualNum::sqrt(&x)));
+    cover!(true);
+}
+
+#[cfg_attr(kani, kani::proof)]
+#[cfg_attr(kani, kani::unwind(8))]
+#[cfg_attr(kani, kani::stub(f64::sin_cos, tag::sin_cos))]
+#[cfg_attr(kani, kani::stub(f64::asin, tag::asin))]
+#[cfg_attr(kani, kani::stub(f64::acos, tag::acos))]
+#[cfg_attr(kani, kani::stub(f64::atan, tag::atan))]
+#[cfg_attr(kani, kani::stub(f64::sinh, tag::sinh))]
+#[cfg_attr(kani, kani::stub(f64::cosh, tag::cosh))]
+#[cfg_attr(kani, kani::stub(f64::asinh, tag::asinh))]
+#[cfg_attr(kani, kani::stub(f64::acosh, tag::acosh))]
+#[cfg_attr(kani, kani::stub(f64::atanh, tag::atanh))]
+#[cfg_attr(kani, kani::stub(f64::exp, tag::exp))]
+#[cfg_attr(kani, kani::stub(f64::exp2, tag::exp2))]
+#[cfg_attr(kani, kani::stub(f64::exp_m1, tag::exp_m1))]
+#[cfg_attr(kani, kani::stub(f64::ln, tag::ln))]
+#[cfg_attr(kani, kani::stub(f64::ln_1p, tag::ln_1p))]
+#[cfg_attr(kani, kani::stub(f64::log2, tag::log2))]
+#[cfg_attr(kani, kani::stub(f64::log10, tag::log10))]
+#[cfg_attr(kani, kani::stub(f64::cbrt, tag::cbrt))]
+#[cfg_attr(kani, kani::stub(f64::powi, tag::powi))]
+#[cfg_attr(kani, kani::stub(f64::atan2, tag::atan2))]
+pub fn c11_fwdtag_dual2_64_binb_slow() {
+    let x: Dual2_64 = Dual2_64::new(0.5, 1.5, -0.25);
+    let y: Dual2_64 = <Dual2_64 as num_traits::One>::one() + <Dual2_64 as num_traits::One>::one();
+    assert!(same_dual2(&<Dual2_64 as ComplexField>::powf(x.clone(), y.clone()), &DualNum::powd(&x, y.clone())));
+    assert!(same_dual2(&<Dual2_64 as ComplexField>::powc(x.clone(), y.clone()), &DualNum::powd(&x, y.clone())));
+    assert!(same_dual2(&<Dual2_64 as ComplexField>::hypot(x.clone(), y.clone()),
+        &DualNum::sqrt(&(DualNum::powi(&x, 2) + DualNum::powi(&y, 2)))));
+    assert!(same_dual2(&<Dual2_64 as ComplexField>::scale(x.clone(), y.clone()), &(x.clone() * y.clone())));
+    assert!(same_dual2(&<Dual2_64 as ComplexField>::unscale(x.clone(), y.clone()), &(x.clone() / y.clone())));
+    assert!(same_dual2(&<Dual2_64 as ComplexField>::mul_add(x.clone(), y.clone(), y.clone()), &DualNum::mul_add(&x, y.clone(), y.clone())));
+    cover!(true);
+}
+
+#[cfg_attr(kani, kani::proof)]
+#[cfg_attr(kani, kani::unwind(8))]
+#[cfg_attr(kani, kani::stub(f64::sin_cos, tag::sin_cos))]
+#[cfg_attr(kani, kani::stub(f64::asin, tag::asin))]
+#[cfg_attr(kani, kani::stub(f64::acos, tag::acos))]
+#[cfg_attr(kani, kani::stub(f64::atan, tag::atan))]
+#[cfg_attr(kani, kani::stub(f64::sinh, tag::sinh))]
+#[cfg_attr(kani, kani::stub(f64::cosh, tag::cosh))]
+#[cfg_attr(kani, kani::stub(f64::asinh, tag::asinh))]
+#[cfg_attr(kani, kani::stub(f64::acosh, tag::acosh))]
+#[cfg_attr(kani, kani::stub(f64::atanh, tag::atanh))]
+#[cfg_attr(kani, kani::stub(f64::exp, tag::exp))]
+#[cfg_attr(kani, kani::stub(f64::exp2, tag::exp2))]
+#[cfg_attr(kani, kani::stub(f64::exp_m1, tag::exp_m1))]
+#[cfg_attr(kani, kani::stub(f64::ln, tag::ln))]
+#[cfg_attr(kani, kani::stub(f64::ln_1p, tag::ln_1p))]
+#[cfg_attr(kani, kani::stub(f64::log2, tag::log2))]
+#[cfg_attr(kani, kani::stub(f64::log10, tag::log10))]
+#[cfg_attr(kani, kani::stub(f64::cbrt, tag::cbrt))]
+#[cfg_attr(kani, kani::stub(f64::powi, tag::powi))]
+#[cfg_attr(kani, kani::stub(f64::atan2, tag::atan2))]
+pub fn c11_fwdtag_dualvec64_u0() {
+    let x: DualVec<f64, f64, Const<2>> = mk_dvec_c();
+    assert!(same_dvec(&<DualVec<f64, f64, Const<2>> as ComplexField>::sin(x.clone()), &DualNum::sin(&x)));
+    assert!(same_dvec(&<DualVec<f64, f64, Const<2>> as ComplexField>::cos(x.clone()), &DualNum::cos(&x)));
+    assert!(same_dvec(&<DualVec<f64, f64, Const<2>> as ComplexField>::tan(x.clone()), &DualNum::tan(&x)));
+    assert!(same_dvec(&<DualVec<f64, f64, Const<2>> as ComplexField>::asin(x.clone()), &DualNum::asin(&x)));
+    assert!(same_dvec(&<DualVec<f64, f64, Const<2>> as ComplexField>::acos(x.clone()), &DualNum::acos(&x)));
+    assert!(same_dvec(&<DualVec<f64, f64, Const<2>> as ComplexField>::atan(x.clone()), &DualNum::atan(&x)));
+    cover!(true);
+}
+
+#[cfg_attr(kani, kani::proof)]
+#[cfg_attr(kani, kani::unwind(8))]
+#[cfg_attr(kani, kani::stub(f64::sin_cos, tag::sin_cos))]
+#[cfg_attr(kani, kani::stub(f64::asin, tag::asin))]
+#[cfg_attr(kani, kani::stub(f64::acos, tag::acos))]
+#[cfg_attr(kani, kani::stub(f64::atan, tag::atan))]
+#[cfg_attr(kani, kani::stub(f64::sinh, tag::sinh))]
+#[cfg_attr(kani, kani::stub(f64::cosh, tag::cosh))]
+#[cfg_attr(kani, kani::stub(f64::asinh, tag::asinh))]
+#[cfg_attr(kani, kani::stub(f64::acosh, tag::acosh))]
+#[cfg_attr(kani, kani::stub(f64::atanh, tag::atanh))]
+#[cfg_attr(kani, kani::stub(f64::exp, tag::exp))]
+#[cfg_attr(kani, kani::stub(f64::exp2, tag::exp2))]
+#[cfg_attr(kani, kani::stub(f64::exp_m1, tag::exp_m1))]
+#[cfg_attr(kani, kani::stub(f64::ln, tag::ln))]
+#[cfg_attr(kani, kani::stub(f64::ln_1p, tag::ln_1p))]
+#[cfg_attr(kani, kani::stub(f64::log2, tag::log2))]
+#[cfg_attr(kani, kani::stub(f64::log10, tag::log10))]
+#[cfg_attr(kani, kani::stub(f64::cbrt, tag::cbrt))]
+#[cfg_attr(kani, kani::stub(f64::powi, tag::powi))]
+#[cfg_attr(kani, kani::stub(f64::atan2, tag::atan2))]
+pub fn c11_fwdtag_dualvec64_u1() {
+    let x: DualVec<f64, f64, Const<2>> = mk_dvec_c();
+    assert!(same_dvec(&<DualVec<f64, f64, Const<2>> as ComplexField>::sinh(x.clone()), &DualNum::sinh(&x)));
+    assert!(same_dvec(&<DualVec<f64, f64, Const<2>> as ComplexField>::cosh(x.clone()), &DualNum::cosh(&x)));
+    assert!(same_dvec(&<DualVec<f64, f64, Const<2>> as ComplexField>::tanh(x.clone()), &DualNum::tanh(&x)));
+    assert!(same_dvec(&<DualVec<f64, f64, Const<2>> as ComplexField>::asinh(x.clone()), &DualNum::asinh(&x)));
+    assert!(same_dvec(&<DualVec<f64, f64, Const<2>> as ComplexField>::atanh(x.clone()), &DualNum::atanh(&x)));
+    assert!(same_dvec(&<DualVec<f64, f64, Const<2>> as ComplexField>::sqrt(x.clone()), &DualNum::sqrt(&x)));
+    assert!(same_dvec(&<DualVec<f64, f64, Const<2>> as ComplexField>::recip(x.clone()), &DualNum::recip(&x)));
+    cover!(true);
+}
+
+#[cfg_attr(kani, kani::proof)]
+#[cfg_attr(kani, kani::unwind(8))]
+#[cfg_attr(kani, kani::stub(f64::sin_cos, tag::sin_cos))]
+#[cfg_attr(kani, kani::stub(f64::asin, tag::asin))]
+#[cfg_attr(kani, kani::stub(f64::acos, tag::acos))]
+#[cfg_attr(kani, kani::stub(f64::atan, tag::atan))]
+#[cfg_attr(kani, kani::stub(f64::sinh, tag::sinh))]
+#[cfg_attr(kani, kani::stub(f64::cosh, tag::cosh))]
+#[cfg_attr(kani, kani::stub(f64::asinh, tag::asinh))]
+#[cfg_attr(kani, kani::stub(f64::acosh, tag::acosh))]
+#[cfg_attr(kani, kani::stub(f64::atanh, tag::atanh))]
+#[cfg_attr(kani, kani::stub(f64::exp, tag::exp))]
+#[cfg_attr(kani, kani::stub(f64::exp2, tag::exp2))]
+#[cfg_attr(kani, kani::stub(f64::exp_m1, tag::exp_m1))]
+#[cfg_attr(kani, kani::stub(f64::ln, tag::ln))]
+#[cfg_attr(kani, kani::stub(f64::ln_1p, tag::ln_1p))]
+#[cfg_attr(kani, kani::stub(f64::log2, tag::log2))]
+#[cfg_attr(kani, kani::stub(f64::log10, tag::log10))]
+#[cfg_attr(kani, kani::stub(f64::cbrt, tag::cbrt))]
+#[cfg_attr(kani, kani::stub(f64::powi, tag::powi))]
+#[cfg_attr(kani, kani::stub(f64::atan2, tag::atan2))]
+pub fn c11_fwdtag_dualvec64_u2() {
+    let x: DualVec<f64, f64, Const<2>> = mk_dvec_c();
+    assert!(same_dvec(&<DualVec<f64, f64, Const<2>> as ComplexField>::exp(x.clone()), &DualNum::exp(&x)));
+    assert!(same_dvec(&<DualVec<f64, f64, Const<2>> as ComplexField>::exp2(x.clone()), &DualNum::exp2(&x)));
+    assert!(same_dvec(&<DualVec<f64, f64, Const<2>> as ComplexField>::exp_m1(x.clone()), &DualNum::exp_m1(&x)));
+    assert!(same_dvec(&<DualVec<f64, f64, Const<2>> as ComplexField>::ln(x.clone()), &DualNum::ln(&x)));
+    assert!(same_dvec(&<DualVec<f64, f64, Const<2>> as ComplexField>::ln_1p(x.clone()), &DualNum::ln_1p(&x)));
+    assert!(same_dvec(&<DualVec<f64, f64, Const<2>> as ComplexField>::log2(x.clone()), &DualNum::log2(&x)));
+    assert!(same_dvec(&<DualVec<f64, f64, Const<2>> as ComplexField>::log10(x.clone()), &DualNum::log10(&x)));
+    assert!(same_dvec(&<DualVec<f64, f64, Const<2>> as ComplexField>::cbrt(x.clone()), &DualNum::cbrt(&x)));
+    cover!(true);
+}
+
+#[cfg_attr(kani, kani::proof)]
+#[cfg_attr(kani, kani::unwind(8))]
+#[cfg_attr(kani, kani::stub(f64::sin_cos, tag::sin_cos))]
+#[cfg_attr(kani, kani::stub(f64::asin, tag::asin))]
+#[cfg_attr(kani, kani::stub(f64::acos, tag::acos))]
+#[cfg_attr(kani, kani::stub(f64::atan, tag::atan))]
+#[cfg_attr(kani, kani::stub(f64::sinh, tag::sinh))]
+#[cfg_attr(kani, kani::stub(f64::cosh, tag::cosh))]
+#[cfg_attr(kani, kani::stub(f64::asinh, tag::asinh))]
+#[cfg_attr(kani, kani::stub(f64::acosh, tag::acosh))]
+#[cfg_attr(kani, kani::stub(f64::atanh, tag::atanh))]
+#[cfg_attr(kani, kani::stub(f64::exp, tag::exp))]
+#[cfg_attr(kani, kani::stub(f64::exp2, tag::exp2))]
+#[cfg_attr(kani, kani::stub(f64::exp_m1, tag::exp_m1))]
+#[cfg_attr(kani, kani::stub(f64::ln, tag::ln))]
+#[cfg_attr(kani, kani::stub(f64::ln_1p, tag::ln_1p))]
+#[cfg_attr(kani, kani::stub(f64::log2, tag::log2))]
+#[cfg_attr(kani, kani::stub(f64::log10, tag::log10))]
+#[cfg_attr(kani, kani::stub(f64::cbrt, tag::cbrt))]
+#[cfg_attr(kani, kani::stub(f64::powi, tag::powi))]
+#[cfg_attr(kani, kani::stub(f64::atan2, tag::atan2))]
+pub fn c11_fwdtag_dualvec64_bina() {
+    let x: DualVec<f64, f64, Const<2>> = mk_dvec_c();
+    let y: DualVec<f64, f64, Const<2>> = <DualVec<f64, f64, Const<2>> as num_traits::One>::one() + <DualVec<f64, f64, Const<2>> as num_traits::One>::one();
+    let (s1, c1) = <DualVec<f64, f64, Const<2>> as ComplexField>::sin_cos(x.clone());
+    let (s2, c2) = DualNum::sin_cos(&x);
+    assert!(same_dvec(&s1, &s2) && same_dvec(&c1, &c2));
+    assert!(same_dvec(&<DualVec<f64, f64, Const<2>> as ComplexField>::powi(x.clone(), 3), &DualNum::powi(&x, 3)));
+    assert!(same_dvec(&<DualVec<f64, f64, Const<2>> as ComplexField>::log(x.clone(), y.clone()), &(DualNum::ln(&x) / DualNum::ln(&y))));
+    assert!(same_dvec(&<DualVec<f64, f64, Const<2>> as RealField>::atan2(x.clone(), y.clone()), &DualNum::atan2(&x, y.clone())));
+    let ts = <DualVec<f64, f64, Const<2>> as ComplexField>::try_sqrt(x.clone());
+    assert!(ts.is_some() && same_dvec(&ts.unwrap(), &DualNum::sqrt(&x)));
+    cover!(true);
+}
+
+#[cfg_attr(kani, kani::proof)]
+#[cfg_attr(kani, kani::unwind(8))]
+#[cfg_attr(kani, kani::stub(f64::sin_cos, tag::sin_cos))]
+#[cfg_attr(kani, kani::stub(f64::asin, tag::asin))]
+#[cfg_attr(kani, kani::stub(f64::acos, tag::acos))]
+#[cfg_attr(kani, kani::stub(f64::atan, tag::atan))]
+#[cfg_attr(kani, kani::stub(f64::sinh, tag::sinh))]
+#[cfg_attr(kani, kani::stub(f64::cosh, tag::cosh))]
+#[cfg_attr(kani, kani::stub(f64::asinh, tag::asinh))]
+#[cfg_attr(kani, kani::stub(f64::acosh, tag::acosh))]
+#[cfg_attr(kani, kani::stub(f64::atanh, tag::atanh))]
+#[cfg_attr(kani, kani::stub(f64::exp, tag::exp))]
+#[cfg_attr(kani, kani::stub(f64::exp2, tag::exp2))]
+#[cfg_attr(kani, kani::stub(f64::exp_m1, tag::exp_m1))]
+#[cfg_attr(kani, kani::stub(f64::ln, tag::ln))]
+#[cfg_attr(kani, kani::stub(f64::ln_1p, tag::ln_1p))]
+#[cfg_attr(kani, kani::stub(f64::log2, tag::log2))]
+#[cfg_attr(kani, kani::stub(f64::log10, tag::log10))]
+#[cfg_attr(kani, kani::stub(f64::cbrt, tag::cbrt))]
+#[cfg_attr(kani, kani::stub(f64::powi, tag::powi))]
+#[cfg_attr(kani, kani::stub(f64::atan2, tag::atan2))]
+pub fn c11_fwdtag_dualvec64_binb_slow() {
+    let x: DualVec<f64, f64, Const<2>> = mk_dvec_c();
+    let y: DualVec<f64, f64, Const<2>> = <DualVec<f64, f64, Const<2>> as num_traits::One>::one() + <DualVec<f64, f64, Const<2>> as num_traits::One>::one();
+    assert!(same_dvec(&<DualVec<f64, f64, Const<2>> as ComplexField>::powf(x.clone(), y.clone()), &DualNum::powd(&x, y.clone())));
+    assert!(same_dvec(&<DualVec<f64, f64, Const<2>> as ComplexField>::powc(x.clone(), y.clone()), &DualNum::powd(&x, y.clone())));
+    assert!(same_dvec(&<DualVec<f64, f64, Const<2>> as ComplexField>::hypot(x.clone(), y.clone()),
+        &DualNum::sqrt(&(DualNum::powi(&x, 2) + DualNum::powi(&y, 2)))));
+    assert!(same_dvec(&<DualVec<f64, f64, Const<2>> as ComplexField>::scale(x.clone(), y.clone()), &(x.clone() * y.clone())));
+    assert!(same_dvec(&<DualVec<f64, f64, Const<2>> as ComplexField>::unscale(x.clone(), y.clone()), &(x.clone() / y.clone())));
+    assert!(same_dvec(&<DualVec<f64, f64, Const<2>> as ComplexField>::mul_add(x.clone(), y.clone(), y.clone()), &DualNum::mul_add(&x, y.clone(), y.clone())));
+    cover!(true);
+}
+
+#[cfg_attr(kani, kani::proof)]
+#[cfg_attr(kani, kani::unwind(8))]
+#[cfg_attr(kani, kani::stub(f64::sin_cos, tag::sin_cos))]
+#[cfg_attr(kani, kani::stub(f64::asin, tag::asin))]
+#[cfg_attr(kani, kani::stub(f64::acos, tag::acos))]
+#[cfg_attr(kani, kani::stub(f64::atan, tag::atan))]
+#[cfg_attr(kani, kani::stub(f64::sinh, tag::sinh))]
+#[cfg_attr(kani, kani::stub(f64::cosh, tag::cosh))]
+#[cfg_attr(kani, kani::stub(f64::asinh, tag::asinh))]
+#[cfg_attr(kani, kani::stub(f64::acosh, tag::acosh))]
+#[cfg_attr(kani, kani::stub(f64::atanh, tag::atanh))]
+#[cfg_attr(kani, kani::stub(f64::exp, tag::exp))]
+#[cfg_attr(kani, kani::stub(f64::exp2, tag::exp2))]
+#[cfg_attr(kani, kani::stub(f64::exp_m1, tag::exp_m1))]
+#[cfg_attr(kani, kani::stub(f64::ln, tag::ln))]
+#[cfg_attr(kani, kani::stub(f64::ln_1p, tag::ln_1p))]
+#[cfg_attr(kani, kani::stub(f64::log2, tag::log2))]
+#[cfg_attr(kani, kani::stub(f64::log10, tag::log10))]
+#[cfg_attr(kani, kani::stub(f64::cbrt, tag::cbrt))]
+#[cfg_attr(kani, kani::stub(f64::powi, tag::powi))]
+#[cfg_attr(kani, kani::stub(f64::atan2, tag::atan2))]
+pub fn c11_fwdtag_dual2vec64_u0_slow() {
+    let x: Dual2Vec<f64, f64, Const<1>> = mk_d2v();
+    assert!(same_d2v(&<Dual2Vec<f64, f64, Const<1>> as ComplexField>::sin(x.clone()), &DualNum::sin(&x)));
+    assert!(same_d2v(&<Dual2Vec<f64, f64, Const<1>> as ComplexField>::cos(x.clone()), &DualNum::cos(&x)));
+    assert!(same_d2v(&<Dual2Vec<f64, f64, Const<1>> as ComplexField>::tan(x.clone()), &DualNum::tan(&x)));
+    assert!(same_d2v(&<Dual2Vec<f64, f64, Const<1>> as ComplexField>::asin(x.clone()), &DualNum::asin(&x)));
+    assert!(same_d2v(&<Dual2Vec<f64, f64, Const<1>> as ComplexField>::acos(x.clone()), &DualNum::acos(&x)));
+    assert!(same_d2v(&<Dual2Vec<f64, f64, Const<1>> as ComplexField>::atan(x.clone()), &DualNum::atan(&x)));
+    cover!(true);
+}
+
+#[cfg_attr(kani, kani::proof)]
+#[cfg_attr(kani, kani::unwind(8))]
+#[cfg_attr(kani, kani::stub(f64::sin_cos, tag::sin_cos))]
+#[cfg_attr(kani, kani::stub(f64::asin, tag::asin))]
+#[cfg_attr(kani, kani::stub(f64::acos, tag::acos))]
+#[cfg_attr(kani, kani::stub(f64::atan, tag::atan))]
+#[cfg_attr(kani, kani::stub(f64::sinh, tag::sinh))]
+#[cfg_attr(kani, kani::stub(f64::cosh, tag::cosh))]
+#[cfg_attr(kani, kani::stub(f64::asinh, tag::asinh))]
+#[cfg_attr(kani, kani::stub(f64::acosh, tag::acosh))]
+#[cfg_attr(kani, kani::stub(f64::atanh, tag::atanh))]
+#[cfg_attr(kani, kani::stub(f64::exp, tag::exp))]
+#[cfg_attr(kani, kani::stub(f64::exp2, tag::exp2))]
+#[cfg_attr(kani, kani::stub(f64::exp_m1, tag::exp_m1))]
+#[cfg_attr(kani, kani::stub(f64::ln, tag::ln))]
+#[cfg_attr(kani, kani::stub(f64::ln_1p, tag::ln_1p))]
+#[cfg_attr(kani, kani::stub(f64::log2, tag::log2))]
+#[cfg_attr(kani, kani::stub(f64::log10, tag::log10))]
+#[cfg_attr(kani, kani::stub(f64::cbrt, tag::cbrt))]
+#[cfg_attr(kani, kani::stub(f64::powi, tag::powi))]
+#[cfg_attr(kani, kani::stub(f64::atan2, tag::atan2))]
+pub fn c11_fwdtag_dual2vec64_u1_slow() {
+    let x: Dual2Vec<f64, f64, Const<1>> = mk_d2v();
+    assert!(same_d2v(&<Dual2Vec<f64, f64, Const<1>> as ComplexField>::sinh(x.clone()), &DualNum::sinh(&x)));
+    assert!(same_d2v(&<Dual2Vec<f64, f64, Const<1>> as ComplexField>::cosh(x.clone()), &DualNum::cosh(&x)));
+    assert!(same_d2v(&<Dual2Vec<f64, f64, Const<1>> as ComplexField>::tanh(x.clone()), &DualNum::tanh(&x)));
+    assert!(same_d2v(&<Dual2Vec<f64, f64, Const<1>> as ComplexField>::asinh(x.clone()), &DualNum::asinh(&x)));
+    assert!(same_d2v(&<Dual2Vec<f64, f64, Const<1>> as ComplexField>::atanh(x.clone()), &DualNum::atanh(&x)));
+    assert!(same_d2v(&<Dual2Vec<f64, f64, Const<1>> as ComplexField>::sqrt(x.clone()), &DualNum::sqrt(&x)));
+    assert!(same_d2v(&<Dual2Vec<f64, f64, Const<1>> as ComplexField>::recip(x.clone()), &DualNum::recip(&x)));
+    cover!(true);
+}
+
+#[cfg_attr(kani, kani::proof)]
+#[cfg_attr(kani, kani::unwind(8))]
+#[cfg_attr(kani, kani::stub(f64::sin_cos, tag::sin_cos))]
+#[cfg_attr(kani, kani::stub(f64::asin, tag::asin))]
+#[cfg_attr(kani, kani::stub(f64::acos, tag::acos))]
+#[cfg_attr(kani, kani::stub(f64::atan, tag::atan))]
+#[cfg_attr(kani, kani::stub(f64::sinh, tag::sinh))]
+#[cfg_attr(kani, kani::stub(f64::cosh, tag::cosh))]
+#[cfg_attr(kani, kani::stub(f64::asinh, tag::asinh))]
+#[cfg_attr(kani, kani::stub(f64::acosh, tag::acosh))]
+#[cfg_attr(kani, kani::stub(f64::atanh, tag::atanh))]
+#[cfg_attr(kani, kani::stub(f64::exp, tag::exp))]
+#[cfg_attr(kani, kani::stub(f64::exp2, tag::exp2))]
+#[cfg_attr(kani, kani::stub(f64::exp_m1, tag::exp_m1))]
+#[cfg_attr(kani, kani::stub(f64::ln, tag::ln))]
+#[cfg_attr(kani, kani::stub(f64::ln_1p, tag::ln_1p))]
+#[cfg_attr(kani, kani::stub(f64::log2, tag::log2))]
+#[cfg_attr(kani, kani::stub(f64::log10, tag::log10))]
+#[cfg_attr(kani, kani::stub(f64::cbrt, tag::cbrt))]
+#[cfg_attr(kani, kani::stub(f64::powi, tag::powi))]
+#[cfg_attr(kani, kani::stub(f64::atan2, tag::atan2))]
+pub fn c11_fwdtag_dual2vec64_u2_slow() {
+    let x: Dual2Vec<f64, f64, Const<1>> = mk_d2v();
+    assert!(same_d2v(&<Dual2Vec<f64, f64, Const<1>> as ComplexField>::exp(x.clone()), &DualNum::exp(&x)));
+    assert!(same_d2v(&<Dual2Vec<f64, f64, Const<1>> as ComplexField>::exp2(x.clone()), &DualNum::exp2(&x)));
+    assert!(same_d2v(&<Dual2Vec<f64, f64, Const<1>> as ComplexField>::exp_m1(x.clone()), &DualNum::exp_m1(&x)));
+    assert!(same_d2v(&<Dual2Vec<f64, f64, Const<1>> as ComplexField>::ln(x.clone()), &DualNum::ln(&x)));
+    assert!(same_d2v(&<Dual2Vec<f64, f64, Const<1>> as ComplexField>::ln_1p(x.clone()), &DualNum::ln_1p(&x)));
+    assert!(same_d2v(&<Dual2Vec<f64, f64, Const<1>> as ComplexField>::log2(x.clone()), &DualNum::log2(&x)));
+    assert!(same_d2v(&<Dual2Vec<f64, f64, Const<1>> as ComplexField>::log10(x.clone()), &DualNum::log10(&x)));
+    assert!(same_d2v(&<Dual2Vec<f64, f64, Const<1>> as ComplexField>::cbrt(x.clone()), &DualNum::cbrt(&x)));
+    cover!(true);
+}
+
+#[cfg_attr(kani, kani::proof)]
+#[cfg_attr(kani, kani::unwind(8))]
+#[cfg_attr(kani, kani::stub(f64::sin_cos, tag::sin_cos))]
+#[cfg_attr(kani, kani::stub(f64::asin, tag::asin))]
+#[cfg_attr(kani, kani::stub(f64::acos, tag::acos))]
+#[cfg_attr(kani, kani::stub(f64::atan, tag::atan))]
+#[cfg_attr(kani, kani::stub(f64::sinh, tag::sinh))]
+#[cfg_attr(kani, kani::stub(f64::cosh, tag::cosh))]
+#[cfg_attr(kani, kani::stub(f64::asinh, tag::asinh))]
+#[cfg_attr(kani, kani::stub(f64::acosh, tag::acosh))]
+#[cfg_attr(kani, kani::stub(f64::atanh, tag::atanh))]
+#[cfg_attr(kani, kani::stub(f64::exp, tag::exp))]
+#[cfg_attr(kani, kani::stub(f64::exp2, tag::exp2))]
+#[cfg_attr(kani, kani::stub(f64::exp_m1, tag::exp_m1))]
+#[cfg_attr(kani, kani::stub(f64::ln, tag::ln))]
+#[cfg_attr(kani, kani::stub(f64::ln_1p, tag::ln_1p))]
+#[cfg_attr(kani, kani::stub(f64::log2, tag::log2))]
+#[cfg_attr(kani, kani::stub(f64::log10, tag::log10))]
+#[cfg_attr(kani, kani::stub(f64::cbrt, tag::cbrt))]
+#[cfg_attr(kani, kani::stub(f64::powi, tag::powi))]
+#[cfg_attr(kani, kani::stub(f64::atan2, tag::atan2))]
+pub fn c11_fwdtag_dual2vec64_bina_slow() {
+    let x: Dual2Vec<f64, f64, Const<1>> = mk_d2v();
+    let y: Dual2Vec<f64, f64, Const<1>> = <Dual2Vec<f64, f64, Const<1>> as num_traits::One>::one() + <Dual2Vec<f64, f64, Const<1>> as num_traits::One>::one();
+    let (s1, c1) = <Dual2Vec<f64, f64, Const<1>> as ComplexField>::sin_cos(x.clone());
+    let (s2, c2) = DualNum::sin_cos(&x);
+    assert!(same_d2v(&s1, &s2) && same_d2v(&c1, &c2));
+    assert!(same_d2v(&<Dual2Vec<f64, f64, Const<1>> as ComplexField>::powi(x.clone(), 3), &DualNum::powi(&x, 3)));
+    assert!(same_d2v(&<Dual2Vec<f64, f64, Const<1>> as ComplexField>::log(x.clone(), y.clone()), &(DualNum::ln(&x) / DualNum::ln(&y))));
+    assert!(same_d2v(&<Dual2Vec<f64, f64, Const<1>> as RealField>::atan2(x.clone(), y.clone()), &DualNum::atan2(&x, y.clone())));
+    let ts = <Dual2Vec<f64, f64, Const<1>> as ComplexField>::try_sqrt(x.clone());
+    assert!(ts.is_some() && same_d2v(&ts.unwrap(), &DualNum::sqrt(&x)));
+    cover!(true);
+}
+
+#[cfg_attr(kani, kani::proof)]
+#[cfg_attr(kani, kani::unwind(8))]
+#[cfg_attr(kani, kani::stub(f64::sin_cos, tag::sin_cos))]
+#[cfg_attr(kani, kani::stub(f64::asin, tag::asin))]
+#[cfg_attr(kani, kani::stub(f64::acos, tag::acos))]
+#[cfg_attr(kani, kani::stub(f64::atan, tag::atan))]
+#[cfg_attr(kani, kani::stub(f64::sinh, tag::sinh))]
+#[cfg_attr(kani, kani::stub(f64::cosh, tag::cosh))]
+#[cfg_attr(kani, kani::stub(f64::asinh, tag::asinh))]
+#[cfg_attr(kani, kani::stub(f64::acosh, tag::acosh))]
+#[cfg_attr(kani, kani::stub(f64::atanh, tag::atanh))]
+#[cfg_attr(kani, kani::stub(f64::exp, tag::exp))]
+#[cfg_attr(kani, kani::stub(f64::exp2, tag::exp2))]
+#[cfg_attr(kani, kani::stub(f64::exp_m1, tag::exp_m1))]
+#[cfg_attr(kani, kani::stub(f64::ln, tag::ln))]
+#[cfg_attr(kani, kani::stub(f64::ln_1p, tag::ln_1p))]
+#[cfg_attr(kani, kani::stub(f64::log2, tag::log2))]
+#[cfg_attr(kani, kani::stub(f64::log10, tag::log10))]
+#[cfg_attr(kani, kani::stub(f64::cbrt, tag::cbrt))]
+#[cfg_attr(kani, kani::stub(f64::powi, tag::powi))]
+#[cfg_attr(kani, kani::stub(f64::atan2, tag::atan2))]
+pub fn c11_fwdtag_dual2vec64_binb_slow() {
+    let x: Dual2Vec<f64, f64, Const<1>> = mk_d2v();
+    let y: Dual2Vec<f64, f64, Const<1>> = <Dual2Vec<f64, f64, Const<1>> as num_traits::One>::one() + <Dual2Vec<f64, f64, Const<1>> as num_traits::One>::one();
+    assert!(same_d2v(&<Dual2Vec<f64, f64, Const<1>> as ComplexField>::powf(x.clone(), y.clone()), &DualNum::powd(&x, y.clone())));
+    assert!(same_d2v(&<Dual2Vec<f64, f64, Const<1>> as ComplexField>::powc(x.clone(), y.clone()), &DualNum::powd(&x, y.clone())));
+    assert!(same_d2v(&<Dual2Vec<f64, f64, Const<1>> as ComplexField>::hypot(x.clone(), y.clone()),
+        &DualNum::sqrt(&(DualNum::powi(&x, 2) + DualNum::powi(&y, 2)))));
+    assert!(same_d2v(&<Dual2Vec<f64, f64, Const<1>> as ComplexField>::scale(x.clone(), y.clone()), &(x.clone() * y.clone())));
+    assert!(same_d2v(&<Dual2Vec<f64, f64, Const<1>> as ComplexField>::unscale(x.clone(), y.clone()), &(x.clone() / y.clone())));
+    assert!(same_d2v(&<Dual2Vec<f64, f64, Const<1>> as ComplexField>::mul_add(x.clone(), y.clone(), y.clone()), &DualNum::mul_add(&x, y.clone(), y.clone())));
+    cover!(true);
+}
+
 pub const LIST: &[(&str, fn())] = &[
+    ("c11_fwdtag_dual64_u0", c11_fwdtag_dual64_u0),
+    ("c11_fwdtag_dual64_u1", c11_fwdtag_dual64_u1),
+    ("c11_fwdtag_dual64_u2", c11_fwdtag_dual64_u2),
+    ("c11_fwdtag_dual64_bina", c11_fwdtag_dual64_bina),
+    ("c11_fwdtag_dual64_binb_slow", c11_fwdtag_dual64_binb_slow),
+    ("c11_fwdtag_dual2_64_u0", c11_fwdtag_dual2_64_u0),
+    ("c11_fwdtag_dual2_64_u1", c11_fwdtag_dual2_64_u1),
+    ("c11_fwdtag_dual2_64_u2", c11_fwdtag_dual2_64_u2),
+    ("c11_fwdtag_dual2_64_bina", c11_fwdtag_dual2_64_bina),
+    ("c11_fwdtag_dual2_64_binb_slow", c11_fwdtag_dual2_64_binb_slow),
+    ("c11_fwdtag_dualvec64_u0", c11_fwdtag_dualvec64_u0),
+    ("c11_fwdtag_dualvec64_u1", c11_fwdtag_dualvec64_u1),
+    ("c11_fwdtag_dualvec64_u2", c11_fwdtag_dualvec64_u2),
+    ("c11_fwdtag_dualvec64_bina", c11_fwdtag_dualvec64_bina),
+    ("c11_fwdtag_dualvec64_binb_slow", c11_fwdtag_dualvec64_binb_slow),
+    ("c11_fwdtag_dual2vec64_u0_slow", c11_fwdtag_dual2vec64_u0_slow),
+    ("c11_fwdtag_dual2vec64_u1_slow", c11_fwdtag_dual2vec64_u1_slow),
+    ("c11_fwdtag_dual2vec64_u2_slow", c11_fwdtag_dual2vec64_u2_slow),
+    ("c11_fwdtag_dual2vec64_bina_slow", c11_fwdtag_dual2vec64_bina_slow),
+    ("c11_fwdtag_dual2vec64_binb_slow", c11_fwdtag_dual2vec64_binb_slow),
+
+    ("c11_fwd_dual_trig", c11_fwd_dual_trig),
+    ("c11_fwd_dual_hyp", c11_fwd_dual_hyp),
+    ("c11_fwd_dual_exp", c11_fwd_dual_exp),
+    ("c11_fwd_dual_ln", c11_fwd_dual_ln),
+    ("c11_fwd_dual_base2_10", c11_fwd_dual_base2_10),
+    ("c11_fwd_dual2_a", c11_fwd_dual2_a),
+    ("c11_fwd_dual2_b", c11_fwd_dual2_b),
+    ("c11_fwd_dualvec_a", c11_fwd_dualvec_a),
+    ("c11_fwd_dualvec_b", c11_fwd_dualvec_b),
+    ("c11_fwd_dual_powi", c11_fwd_dual_powi),
+    ("c11_fwd_dual_log_powf", c11_fwd_dual_log_powf),
+    ("c11_fwd_dual_simple", c11_fwd_dual_simple),
     ("c11_simd_dualvec_presence", c11_simd_dualvec_presence),
     ("c11_simd_dual2vec_presence", c11_simd_dual2vec_presence),
     ("c11_consts_dual64", c11_consts_dual64),
